@@ -983,6 +983,8 @@ def strip_attrs(txt):
         md = re.match(r"#\[derive\((.*)\)\]$", s)
         if md:
             keep = [x.strip() for x in md.group(1).split(",") if x.strip() in ("Clone", "Copy", "PartialEq", "Eq")]
+            if "PartialEq" in keep and "Eq" in keep:
+                keep = ["Structural"] + keep      # lets Verus relate exec `==` on this type to spec equality
             if keep:
                 out.append(line[:len(line) - len(line.lstrip())] + "#[derive(" + ", ".join(keep) + ")]")
             continue
@@ -1223,13 +1225,15 @@ def emit_fn(em, info, unit, cur_source, blk, typemap):
     body = "{ /*FB*/" + body[1:]
     full = prefix + body
     if parent is not None:
-        hdr = parent.impl_header
+        hdr = re.sub(r"^pub(\s*\([^)]*\))?\s+", "", parent.impl_header)
         if parent.kind == "impl" and " for " in hdr:
             newhdr = re.sub(r"^impl(\s*<.*?>)?\s+.*?\s+for\s+", lambda mm: "impl" + (mm.group(1) or "") + " ", hdr, count=1)
             ft.log.append({"rule": "N15.trait_impl_as_inherent", "fn": fnpath, "from": hdr, "to": newhdr})
             hdr = newhdr
         elif parent.kind == "trait":
-            raise VxError(f"{fnpath}: trait default methods need an @rename impl header")
+            # N15: a trait default method is emitted as an inherent method of a shim type named by an @rename of the trait header
+            if not any(s.name == "rename" for s in subs):
+                raise VxError(f"{fnpath}: trait default methods need an @rename impl header")
         for a, b in typemap:
             hdr = hdr.replace(a, b)
         for s in subs:
@@ -1238,7 +1242,7 @@ def emit_fn(em, info, unit, cur_source, blk, typemap):
                 if a.strip() not in hdr:
                     raise VxError(f"lost anchor: impl header rewrite `{a.strip()}` not in `{hdr}`")
                 hdr = hdr.replace(a.strip(), b.strip())
-                ft.log.append({"rule": "impl-header", "fn": fnpath, "from": a.strip(), "to": b.strip()})
+                ft.log.append({"rule": "impl-header" if parent.kind != "trait" else "N15.trait_default_as_inherent", "fn": fnpath, "from": a.strip(), "to": b.strip()})
         full = hdr + " {\n" + full + "\n}"
     em.add(f"// ---------- extracted: {cur_source}:{src.line_of(it.start)} fn {fnpath} ----------")
     first_line = len(em.lines) + 1
